@@ -476,13 +476,23 @@ def rule_a12(ctx):
     cv, rv = cvars[0], rvars[0]
     remembered = any(isinstance(c_, ast.Call) and norm(c_.func) == 'self._cache.write' and len(c_.args) == 1 and norm(c_.args[0]) == rv
                      for c_ in walk_own(rd.node))
-    rets = [norm(r_.value) for r_ in walk_own(rd.node) if isinstance(r_, ast.Return) and r_.value is not None]
+    from sa.cfg import known_at
+    cfg_rd = ctx.cfg(rd)
+    rets = []
+    for r_ in walk_own(rd.node):
+        if isinstance(r_, ast.Return) and r_.value is not None:
+            t = norm(r_.value)
+            nd_ = cfg_rd.node_of.get(r_)
+            if t in ('%s or None' % cv, 'None') and nd_ is not None and known_at(cfg_rd, nd_, '%s is None' % rv, True):
+                continue        # the raw stream had nothing yet: what the cache held, or None ("nothing yet") when it held nothing
+            rets.append(t)
     ok = remembered and bool(rets) and all(t in (cv, '%s + %s' % (cv, rv)) for t in rets) and ('%s + %s' % (cv, rv)) in rets
     ctx.ob('A12.cache', rd, 'read = cached part + raw part, raw part remembered', ok, '')
     pk = w.method('peek')
     src = norm(pk.node)
     ctx.ob('A12.cache', pk, 'peek = read + relative seek back by what was read',
            'self.read(n)' in src and 'self._cache.seek(-len(result), os.SEEK_CUR)' in src, '')
+    # (an empty or None result moves nothing: the seek may be skipped for it)
     # the element mark is set at the start of every element
     f = ctx.func('codec.ber.decoder.SingleItemDecoder.__call__')
     ok = any(norm(s) == 'substrate.markedPosition = substrate.tell()' for s in stmts_of(f.node))
